@@ -53,7 +53,7 @@ CHECKS['C03'] = dict(
     category='proof',
     text=('Every function in en.combinators is symbolically executed (real ast) against one generic postcondition: result is None or Justified(x, y, result), '
           'Justified looked up in a schema table keyed by the (label, symbol) the result carries (patterns, result skeleton, modifier rule, features-from-inputs, '
-          'N/NP side condition, head direction), for all well-formed category pairs; Unification enters only through its contract (C06). The converse clause '
+          'N/NP side condition, head direction), for all well-formed category pairs; Unification enters through its contract, whose obligations (the C06 obligations for the pattern pairs the grammars use, scan_deep, __getitem__, lemmas) are re-discharged inside this check. The converse clause '
           '(identical matched parts always yield the result) is proved per schema; apply_binary_rules is proved to call an arbitrary list element exactly once on '
           'the nb-erased pair, to collect exactly the non-None results in order and to gate on the (X,nb)-erased pair. A BOUNDED cross-check runs the real rules on '
           'the shipped inventories / seen rules / derived and synthetic categories against an executable twin of the table.'),
@@ -65,7 +65,7 @@ CHECKS['C04'] = dict(
     category='proof',
     text=('Same construction as C03 over ja.combinators (>, <, >B, <B1..<B4, >Bx1..>Bx3, SSEQ; head right), plus apply_unary_rules: results are exactly the '
           'configured targets in order (map-loop rule over an arbitrary table) and the label is the one the statement assigns to the mod value and the number of '
-          'missing arguments (ADNext/ADNint/ADV0/ADV1/ADV2). Bounded cross-check on the shipped Japanese inventory.'),
+          'missing arguments (ADNext/ADNint/ADV0/ADV1/ADV2); the obligations of the Unification contract are re-discharged inside this check. Bounded cross-check on the shipped Japanese inventory.'),
     design_ref='DESIGN.md section 4, C04',
     note=TB_PY + '; the schema tables are the oracle; Unification contract (C06); inputs over the three-part feature system',
     technique='contract-based deductive verification: PyVC + z3 against schema-table postconditions; bounded inventory cross-check',
@@ -114,7 +114,7 @@ CHECKS['C01'] = dict(
     text=('Proved for all inputs: the outside estimate invariant (best remaining tag and head scores incl. the own head), the inside bound, and MONOTONE: every item pushed '
           'while processing a popped item has priority <= the popped priority (leaf, unary, both binary sites, goal); with top() a maximum this gives non-increasing popped '
           'priorities - the observable clause of C01. Optimality itself rests on the A* meta-theorem (assumed, named) and is checked BOUNDED against an exhaustive oracle '
-          'on the real code with the pop hook.'),
+          'on the real code with the pop hook. The premise that both shipped grammars share one head direction is a head-direction obligation on every rule function of en.py and ja.py (PyVC).'),
     design_ref='DESIGN.md section 4, C01', note=TB_CXX + '; A* meta-theorem assumed; optimality clause bounded',
     technique='contract-based deductive verification: CxxVC invariant + monotonicity obligations + z3; bounded oracle for optimality',
 )
